@@ -1,24 +1,46 @@
 #!/usr/bin/env python3
-"""Source-extracted obligations (DESIGN §8):  tools/gen_tables.py --repo <repo> --prop Cxx
+"""Source-extracted obligations (DESIGN §8):  tools/gen_tables.py --repo <repo> --prop Cxx [--json]
 
 Rewrites the files under lean/RbV/Gen/ that belong to property Cxx from the *current* source tree <repo>.
 Called by ./check before `lake build` (under the `lake` lock).  Idempotent: a file is only rewritten when its
-content changes.  Exit status non-zero (with a message on stdout) when an extraction fails.
+content changes.  Exit status non-zero (with a message on stdout) when an extraction fails: a constant that was
+renamed, removed, duplicated, given another type, or is no longer a plain literal is a *broken correspondence*
+(the orchestrator reports VIOLATION … no-failing-input-found with the message).  A constant whose *value* changed
+is extracted normally; the theorems over the generated file then either still hold (the model follows the code) or
+fail in `lake build` (see docs/notes/GEN.md for which constant behaves how, and why).
 
-Extractors are registered per property in EXTRACTORS below (add yours there; properties without an entry are a
-no-op).  Currently:
-  C20  lean/RbV/Gen/Complement.lean   run-time dump (harness binary `rbdump complement`) of
-       bio::alphabets::dna::complement / rna::complement over all 256 byte values.
+Extractors are registered per property in EXTRACTORS below (properties without an entry are a no-op):
+
+  C20            Gen/Complement.lean  run-time dump (harness binary `rbdump complement`) of dna/rna::complement
+  C17            Gen/Dna2Int.lean     literal `DNA2INT: [u8; 128]` and `let height: usize = 3` of wavelet_matrix.rs
+  C15            Gen/Scales.lean      LOG_TO_PHRED_FACTOR, PHRED_TO_LOG_FACTOR, the `ln_1m_exp` switch point
+                                      (stats/probs/mod.rs); COEFF_0..4, ONEBYLOG2, OFFSET_F64, FRACTION_F64,
+                                      MIN_VAL (utils/fastexp.rs) — decimal literals as exact rationals
+  C01 C02 C16    Gen/Limits.lean      MIN_SCORE (pairwise/mod.rs, poa.rs), MAX_CELLS, DEFAULT_MATCH_SCORE (banded.rs)
+  C01 C02        Gen/TbCodes.lean     I_POS, D_POS, S_POS, TB_* (pairwise/mod.rs), the 0b1111 field mask
+  C03 C04        Gen/Occ.lean         the `self.k > 64` threshold in `Occ::get` (data_structures/bwt.rs)
+
+For C01/C02/C16 the theorem modules over the generated files (RbV.Thm.GenLimits, RbV.Thm.GenTbCodes) are not (yet)
+imported by the property's own theorem file, so this script builds them itself (`lake build <module>`; it runs under
+the orchestrator's lake lock) and fails when they no longer check.
+
+`--json` additionally prints one line `gen_tables-json: [...]` describing every generated file (lean file, source
+files with the sha256 of their text and of the extracted snippets) for the evidence (docs/notes/GEN.md).
 """
-import sys, os, argparse, subprocess, fcntl
+import sys, os, re, json, argparse, subprocess, fcntl, hashlib
+from fractions import Fraction
 
 ROOT = os.path.dirname(os.path.dirname(os.path.abspath(__file__)))
 HARN = os.path.join(ROOT, "harness")
-GEN = os.path.join(ROOT, "lean", "RbV", "Gen")
+LEAN = os.path.join(ROOT, "lean")
+GEN = os.path.join(LEAN, "RbV", "Gen")
+
+REPORT = []  # one dict per generated file (for --json)
 
 
 def fail(msg):
-    print("gen_tables: " + msg)
+    # ./check keeps the last 400 characters of the output as the problem text: the message goes last and fits
+    print("gen_tables: " + (msg if len(msg) <= 380 else msg[:377] + "..."))
     sys.exit(1)
 
 
@@ -36,6 +58,270 @@ def write_if_changed(path, text):
     os.replace(tmp, path)
     return True
 
+
+def sha(s):
+    return hashlib.sha256(s.encode("utf8")).hexdigest()
+
+
+THEOREMS = {
+    "Complement": ["RbV.Thm.C20.complement_tables_wellformed", "RbV.Thm.C20.complement_tables_involutive",
+                   "RbV.Thm.C20.complement_tables_case", "RbV.Thm.C20.complement_tables_identity_outside"],
+    "Dna2Int": ["RbV.Thm.C17.dna2int_generated_ok", "RbV.Thm.C17.dna2int_codes_fit_height",
+                "RbV.Thm.C17.wavelet_rank_correct_generated"],
+    "Scales": ["RbV.Thm.C15.phred_factors_inverse", "RbV.Thm.C15.phred_factors_near_exact_given_ln10_enclosure",
+               "RbV.Thm.C15.fastexp_poly_endpoints", "RbV.Thm.C15.fastexp_poly_is_model_poly",
+               "RbV.Thm.C15.fastexp_exponent_field_in_range"],
+    "Limits": ["RbV.Thm.GenLimits.min_score_pairwise_eq_poa", "RbV.Thm.GenLimits.two_min_scores_no_i32_overflow",
+               "RbV.Thm.GenLimits.min_score_range", "RbV.Thm.GenLimits.min_score_headroom",
+               "RbV.Thm.GenLimits.max_cells_pos_and_default_match_pos"],
+    "TbCodes": ["RbV.Thm.GenTbCodes.tb_codes_distinct", "RbV.Thm.GenTbCodes.tb_codes_le_max",
+                "RbV.Thm.GenTbCodes.tb_max_fits_field", "RbV.Thm.GenTbCodes.tb_fields_disjoint",
+                "RbV.Thm.GenTbCodes.tb_get_after_set", "RbV.Thm.GenTbCodes.tb_set_preserves_other_fields",
+                "RbV.Thm.GenTbCodes.tb_set_fits_cell", "RbV.Thm.GenTbCodes.tb_set_all"],
+    "Occ": ["RbV.Thm.C04.occ_get_exact (for every threshold)", "RbV.Thm.C04.occ_get_forward_up_to_threshold"],
+}
+
+
+def emit(name, prop, text, sources, snippets):
+    """write Gen/<name>.lean when changed; record provenance"""
+    changed = write_if_changed(os.path.join(GEN, name + ".lean"), text)
+    print("gen_tables: Gen/%s.lean %s" % (name, "rewritten" if changed else "unchanged"))
+    REPORT.append(dict(lean_file="lean/RbV/Gen/%s.lean" % name, property=prop, lean_sha256=sha(text), rewritten=changed,
+                       theorems=THEOREMS.get(name, []),
+                       sources=[dict(file=rel, sha256=sha(txt)) for rel, txt in sources],
+                       extracted={k: dict(text=" ".join(v.split())[:200], sha256=sha(v)[:16]) for k, v in snippets.items()}))
+
+
+def note(msg):
+    """the Python side already sees that a theorem over the generated file will fail: say which entry (DESIGN §3.5);
+    the verdict itself is left to `lake build`"""
+    print("gen_tables: note: " + msg)
+
+
+# ------------------------------------------------------------------------------------------ source text helpers
+
+class Src:
+    """one source file of the tree under test, with comments blanked out (offsets and line numbers are kept)"""
+
+    def __init__(self, repo, rel):
+        self.rel = rel
+        path = os.path.join(repo, rel)
+        if not os.path.isfile(path):
+            fail("%s: source file not found in %s (moved or removed?)" % (rel, repo))
+        with open(path, encoding="utf8", errors="replace") as f:
+            self.raw = f.read()
+        self.code = blank_comments(self.raw)
+        self.snippets = {}
+
+    def line_of(self, pos):
+        return self.code.count("\n", 0, pos) + 1
+
+    # -- constants -------------------------------------------------------------------------------------------
+    def const(self, name, ty):
+        """the initialiser text of `[pub] const NAME: <ty> = <init>;` at module level.  Exactly one definition
+        must exist and its declared type must be `ty` (white space ignored)."""
+        rx = re.compile(r"^[ \t]*(?:pub(?:\([^)]*\))?[ \t]+)?(?:const|static)[ \t]+" + re.escape(name)
+                        + r"\b\s*:\s*([^=]+?)\s*=\s*([^;]*);", re.M)
+        ms = list(rx.finditer(self.code))
+        if not ms:
+            fail("%s: `const %s` not found (renamed, removed, or no longer a `const` item)" % (self.rel, name))
+        if len(ms) > 1:
+            fail("%s: `const %s` defined %d times (lines %s): which one the code uses cannot be decided from the text"
+                 % (self.rel, name, len(ms), ", ".join(str(self.line_of(m.start())) for m in ms)))
+        m = ms[0]
+        got = "".join(m.group(1).split())
+        if got != "".join(ty.split()):
+            fail("%s:%d: `const %s` now has type `%s`, the obligations were stated for `%s`"
+                 % (self.rel, self.line_of(m.start()), name, m.group(1).strip(), ty))
+        self.snippets[name] = m.group(0).strip()
+        return m.group(2).strip(), self.line_of(m.start())
+
+    def int_const(self, name, ty):
+        init, line = self.const(name, ty)
+        v = parse_int(init)
+        if v is None:
+            fail("%s:%d: `const %s = %s` is no longer an integer literal (an expression cannot be extracted from the text)"
+                 % (self.rel, line, name, init[:60]))
+        lo, hi = int_range(ty)
+        if not (lo <= v <= hi):
+            fail("%s:%d: `const %s = %s` does not fit its type %s" % (self.rel, line, name, init[:60], ty))
+        return v
+
+    def dec_const(self, name, ty="f64"):
+        init, line = self.const(name, ty)
+        v = parse_decimal(init)
+        if v is None:
+            fail("%s:%d: `const %s = %s` is no longer a decimal literal (an expression cannot be extracted from the text)"
+                 % (self.rel, line, name, init[:60]))
+        return v
+
+    def int_array_const(self, name, elem_ty, n):
+        init, line = self.const(name, "[%s; %d]" % (elem_ty, n))
+        if not (init.startswith("[") and init.endswith("]")):
+            fail("%s:%d: `const %s` is not an array literal" % (self.rel, line, name))
+        body = init[1:-1].strip()
+        if ";" in body:
+            fail("%s:%d: `const %s` is a repeat expression `[v; n]`, not an element list" % (self.rel, line, name))
+        items = [x.strip() for x in body.split(",")]
+        if items and items[-1] == "":
+            items.pop()
+        vals = []
+        lo, hi = int_range(elem_ty)
+        for k, it in enumerate(items):
+            v = parse_int(it)
+            if v is None or not (lo <= v <= hi):
+                fail("%s:%d: entry %d of `%s` (`%s`) is not a %s literal" % (self.rel, line, k, name, it[:30], elem_ty))
+            vals.append(v)
+        if len(vals) != n:
+            fail("%s:%d: `%s` has %d entries, its type says %d" % (self.rel, line, name, len(vals), n))
+        return vals
+
+    # -- function bodies -------------------------------------------------------------------------------------
+    def fn_body(self, header_rx, what):
+        """text between the braces of the single function whose header matches `header_rx` (up to its `{`)"""
+        ms = list(re.finditer(header_rx, self.code))
+        if len(ms) != 1:
+            fail("%s: %s: expected exactly one match of the function header, found %d (renamed or restructured)"
+                 % (self.rel, what, len(ms)))
+        start = self.code.find("{", ms[0].end() - 1)
+        if start < 0:
+            fail("%s: %s: no body" % (self.rel, what))
+        depth = 0
+        for i in range(start, len(self.code)):
+            ch = self.code[i]
+            if ch == "{":
+                depth += 1
+            elif ch == "}":
+                depth -= 1
+                if depth == 0:
+                    return self.code[start + 1:i], self.line_of(start)
+        fail("%s: %s: unbalanced braces" % (self.rel, what))
+
+    def unique_in(self, body, body_line, rx, key, what):
+        ms = list(re.finditer(rx, body))
+        if len(ms) != 1:
+            fail("%s: %s: expected exactly one occurrence in the function starting at line %d, found %d "
+                 "(the statement was rewritten; the mirror model no longer corresponds)" % (self.rel, what, body_line, len(ms)))
+        self.snippets[key] = ms[0].group(0).strip()
+        return ms[0]
+
+
+def blank_comments(text):
+    """replace `// …` and `/* … */` (nested) comments by blanks; string/char literals are skipped over"""
+    out = []
+    i, n = 0, len(text)
+    while i < n:
+        c = text[i]
+        two = text[i:i + 2]
+        if two == "//":
+            j = text.find("\n", i)
+            j = n if j < 0 else j
+            out.append(" " * (j - i))
+            i = j
+        elif two == "/*":
+            depth, j = 1, i + 2
+            while j < n and depth > 0:
+                if text[j:j + 2] == "/*":
+                    depth += 1
+                    j += 2
+                elif text[j:j + 2] == "*/":
+                    depth -= 1
+                    j += 2
+                else:
+                    j += 1
+            out.append("".join(ch if ch == "\n" else " " for ch in text[i:j]))
+            i = j
+        elif c == '"':
+            j = i + 1
+            while j < n and text[j] != '"':
+                j += 2 if text[j] == "\\" else 1
+            out.append(text[i:j + 1])
+            i = j + 1
+        elif c == "r" and re.match(r'r#*"', text[i:i + 8]) and (i == 0 or not (text[i - 1].isalnum() or text[i - 1] == "_")):
+            m = re.match(r'r(#*)"', text[i:])
+            close = '"' + m.group(1)
+            j = text.find(close, i + len(m.group(0)))
+            j = n if j < 0 else j + len(close)
+            out.append(text[i:j])
+            i = j
+        elif c == "'":
+            # char literal ('a', '\n', '\'', '\u{1F600}') or lifetime ('a): only skip real char literals
+            m = re.match(r"'(\\.[^']*|[^\\'])'", text[i:i + 14])
+            if m:
+                out.append(m.group(0))
+                i += len(m.group(0))
+            else:
+                out.append(c)
+                i += 1
+        else:
+            out.append(c)
+            i += 1
+    return "".join(out)
+
+
+INT_TYPES = {"u8": (0, 2 ** 8 - 1), "u16": (0, 2 ** 16 - 1), "u32": (0, 2 ** 32 - 1), "u64": (0, 2 ** 64 - 1),
+             "usize": (0, 2 ** 64 - 1), "i8": (-2 ** 7, 2 ** 7 - 1), "i16": (-2 ** 15, 2 ** 15 - 1),
+             "i32": (-2 ** 31, 2 ** 31 - 1), "i64": (-2 ** 63, 2 ** 63 - 1), "isize": (-2 ** 63, 2 ** 63 - 1)}
+
+
+def int_range(ty):
+    return INT_TYPES[ty]
+
+
+def parse_int(s):
+    """Rust integer literal with optional sign, `_` separators, radix prefix and type suffix; None if anything else"""
+    s = s.strip()
+    m = re.fullmatch(r"(-?)\s*(?:\(\s*)?(0b[01_]+|0o[0-7_]+|0x[0-9a-fA-F_]+|[0-9][0-9_]*)(?:\s*\))?"
+                     r"(?:_?(?:u8|u16|u32|u64|usize|i8|i16|i32|i64|isize))?", s)
+    if not m:
+        return None
+    body = m.group(2).replace("_", "")
+    try:
+        if body[:2] in ("0b", "0o", "0x"):
+            if len(body) == 2:
+                return None
+            v = int(body[2:], {"0b": 2, "0o": 8, "0x": 16}[body[:2]])
+        else:
+            v = int(body, 10)
+    except ValueError:
+        return None
+    return -v if m.group(1) else v
+
+
+def parse_decimal(s):
+    """Rust decimal float (or integer) literal as an exact Fraction; None if it is anything else (an expression,
+    a named constant such as f64::MIN, …)"""
+    s = s.strip()
+    m = re.fullmatch(r"(-?)\s*([0-9][0-9_]*)(?:\.([0-9][0-9_]*)?)?(?:[eE]([+-]?)_*([0-9][0-9_]*))?(?:_?f(?:32|64))?", s)
+    if not m:
+        return None
+    ip = m.group(2).replace("_", "")
+    fp = (m.group(3) or "").replace("_", "")
+    v = Fraction(int(ip + fp), 10 ** len(fp))
+    if m.group(5):
+        e = int(m.group(5).replace("_", ""))
+        if e > 400:
+            return None
+        v = v * Fraction(10) ** (-e if m.group(4) == "-" else e)
+    return -v if m.group(1) else v
+
+
+def dec_parts(v):
+    """Fraction whose denominator divides a power of ten -> (mantissa : int, scale : nat) with v = mantissa / 10^scale,
+    scale minimal"""
+    scale = 0
+    while (v * 10 ** scale).denominator != 1:
+        scale += 1
+        if scale > 400:
+            fail("internal: not a decimal fraction: %s" % v)
+    return int(v * 10 ** scale), scale
+
+
+def lean_int(v):
+    return "%d" % v if v >= 0 else "(%d)" % v
+
+
+# ------------------------------------------------------------------------------------------ run-time dump (C20)
 
 def build_harness(repo):
     """same steps as `build_harness` of ./check: re-point bio-src, cargo build (offline) under the cargo lock"""
@@ -67,10 +353,10 @@ def build_harness(repo):
             fcntl.flock(lk, fcntl.LOCK_UN)
 
 
-def lean_list(vals, indent="  "):
+def lean_list(vals, indent="  ", per_row=16, width=3):
     rows = []
-    for i in range(0, len(vals), 16):
-        rows.append(indent + ", ".join("%3d" % v for v in vals[i:i + 16]))
+    for i in range(0, len(vals), per_row):
+        rows.append(indent + ", ".join("%*d" % (width, v) for v in vals[i:i + per_row]))
     return "[\n" + ",\n".join(rows) + "]"
 
 
@@ -104,25 +390,340 @@ def gen_complement(repo):
         "/-- entry b = rna::complement(b) -/\n"
         "def rna : List Nat := " + lean_list(tabs["rna"]) + "\n\n"
         "end RbV.Gen.Complement\n")
-    changed = write_if_changed(os.path.join(GEN, "Complement.lean"), text)
-    print("gen_tables: Gen/Complement.lean %s" % ("rewritten" if changed else "unchanged"))
+    srcs = []
+    for rel in ("src/alphabets/dna.rs", "src/alphabets/rna.rs"):
+        pth = os.path.join(repo, rel)
+        if os.path.isfile(pth):
+            srcs.append((rel, open(pth, encoding="utf8", errors="replace").read()))
+    emit("Complement", "C20", text, srcs, {"dna": " ".join(map(str, tabs["dna"])), "rna": " ".join(map(str, tabs["rna"]))})
+
+
+# ------------------------------------------------------------------------------------------ C17: DNA2INT
+
+def gen_dna2int(repo):
+    rel = "src/data_structures/wavelet_matrix.rs"
+    s = Src(repo, rel)
+    tab = s.int_array_const("DNA2INT", "u8", 128)
+    body, line = s.fn_body(r"pub\s+fn\s+new\s*\(\s*text\s*:\s*&\s*\[\s*u8\s*\]\s*\)\s*->\s*Self\s*\{", "WaveletMatrix::new")
+    m = s.unique_in(body, line, r"\blet\s+height\s*:\s*usize\s*=\s*([^;]+);", "height", "`let height: usize = <literal>;`")
+    height = parse_int(m.group(1))
+    if height is None or not (0 <= height <= 8):
+        fail("%s: `%s`: the number of levels is no longer a small integer literal" % (rel, m.group(0)))
+    # both uses of the table must still be the bit test the mirror model transcribes
+    uses = re.findall(r"\(\s*\(\s*DNA2INT\s*\[[^\]]+\]\s*>>\s*shift\s*\)\s*&\s*1\s*\)\s*==\s*1", s.code)
+    if len(uses) != 2:
+        fail("%s: expected the bit test `((DNA2INT[..] >> shift) & 1) == 1` twice (build_partlevel, rank), found %d"
+             % (rel, len(uses)))
+    syms = [(c, tab[ord(c)]) for c in "ACGTN$"]
+    for i, (a, va) in enumerate(syms):
+        if va >= 2 ** height:
+            note("DNA2INT['%s'] = %d does not fit %d levels: dna2int_codes_fit_height / dna2int_generated_ok will fail" % (a, va, height))
+        for b, vb in syms[i + 1:]:
+            if va == vb:
+                note("DNA2INT['%s'] = DNA2INT['%s'] = %d: dna2int_generated_ok will fail" % (a, b, va))
+    if height != 3:
+        note("height = %d: the mirror model is written for 3 levels, dna2int_codes_fit_height will fail" % height)
+    text = (
+        "/-! GENERATED by tools/gen_tables.py (property C17) — do not edit.\n"
+        "Extracted from the source text of `" + rel + "` on every `./check C17`:\n"
+        "the literal `const DNA2INT: [u8; 128]` and the literal in `let height: usize = …;` of `WaveletMatrix::new`.\n"
+        "Theorems over these constants: `dna2int_generated_ok`, `dna2int_codes_fit_height` in `RbV/Thm/C17.lean`;\n"
+        "the driver `RbV/Drv/C17.lean` runs the wavelet mirror model over this table. -/\n"
+        "namespace RbV.Gen.Dna2Int\n\n"
+        "/-- entry v = DNA2INT[v] -/\n"
+        "def table : List Nat := " + lean_list(tab, per_row=10, width=1) + "\n\n"
+        "/-- number of bit levels of the matrix (`height` in `WaveletMatrix::new`) -/\n"
+        "def height : Nat := %d\n\n" % height +
+        "end RbV.Gen.Dna2Int\n")
+    emit("Dna2Int", "C17", text, [(rel, s.raw)], s.snippets)
+
+
+# ------------------------------------------------------------------------------------------ C15: scale factors
+
+def gen_scales(repo):
+    relp = "src/stats/probs/mod.rs"
+    relf = "src/utils/fastexp.rs"
+    p = Src(repo, relp)
+    f = Src(repo, relf)
+    decs = [("logToPhred", p, "LOG_TO_PHRED_FACTOR"), ("phredToLog", p, "PHRED_TO_LOG_FACTOR"),
+            ("coeff0", f, "COEFF_0"), ("coeff1", f, "COEFF_1"), ("coeff2", f, "COEFF_2"), ("coeff3", f, "COEFF_3"),
+            ("coeff4", f, "COEFF_4"), ("oneByLog2", f, "ONEBYLOG2"), ("minVal", f, "MIN_VAL")]
+    vals = {}
+    for lean_name, src, cname in decs:
+        vals[lean_name] = (dec_parts(src.dec_const(cname)), src.rel, cname)
+    offset = f.int_const("OFFSET_F64", "i64")
+    fraction = f.int_const("FRACTION_F64", "u32")
+    # switch point of ln_1m_exp: `if p < -0.693 {`
+    body, line = p.fn_body(r"\bfn\s+ln_1m_exp\s*\(\s*p\s*:\s*f64\s*\)\s*->\s*f64\s*\{", "ln_1m_exp")
+    m = p.unique_in(body, line, r"\bif\s+p\s*<\s*([^{]+?)\s*\{", "ln_1m_exp switch", "`if p < <literal> {`")
+    sw = parse_decimal(m.group(1))
+    if sw is None:
+        fail("%s: ln_1m_exp: switch point `%s` is no longer a decimal literal" % (relp, m.group(1)))
+    vals["ln1mExpSwitch"] = (dec_parts(sw), relp, "the literal in `if p < … {` of ln_1m_exp")
+    # the guard of fastexp must still be the strict comparison with MIN_VAL the cut-off theorem talks about
+    fbody, fline = f.fn_body(r"\bfn\s+fastexp\s*\(\s*&\s*self\s*\)\s*->\s*f64\s*\{", "fastexp")
+    f.unique_in(fbody, fline, r"\bif\s+\*\s*self\s*>\s*MIN_VAL\s*\{", "fastexp guard", "`if *self > MIN_VAL {`")
+    out = ["import RbV.Basic.Dec",
+           "/-! GENERATED by tools/gen_tables.py (property C15) — do not edit.",
+           "Extracted from the source text of `" + relp + "` and `" + relf + "` on every `./check C15`.",
+           "Every decimal literal is kept exactly: `⟨m, s⟩ : Dec` stands for the rational `m / 10^s`",
+           "(`RbV.Dec.toFloat` gives the `f64` the Lean literal with the same digits denotes).",
+           "Theorems over these constants: `phred_factors_inverse`, `phred_factors_near_exact_given_ln10`,",
+           "`fastexp_poly_endpoints`, `fastexp_exponent_field_in_range` in `RbV/Thm/C15.lean`. -/",
+           "namespace RbV.Gen.Scales", "open RbV", ""]
+    for lean_name, _, _ in decs + [("ln1mExpSwitch", None, None)]:
+        (mant, scale), rel, cname = vals[lean_name]
+        out.append("/-- `%s` (%s) -/" % (cname, rel) if not cname.startswith("the ") else "/-- %s (%s) -/" % (cname, rel))
+        out.append("def %s : Dec := ⟨%s, %d⟩" % (lean_name, lean_int(mant), scale))
+        out.append("")
+    out.append("/-- `OFFSET_F64` (%s): the exponent bias added to `bits` -/" % relf)
+    out.append("def offsetF64 : Int := %s" % lean_int(offset))
+    out.append("")
+    out.append("/-- `FRACTION_F64` (%s): the shift that moves `bits` into the exponent field -/" % relf)
+    out.append("def fractionF64 : Nat := %d" % fraction)
+    out.append("")
+    out.append("end RbV.Gen.Scales")
+    snippets = dict(p.snippets)
+    snippets.update(f.snippets)
+    emit("Scales", "C15", "\n".join(out) + "\n", [(relp, p.raw), (relf, f.raw)], snippets)
+
+
+# ------------------------------------------------------------------------------------------ C01/C02/C16: limits
+
+def gen_limits(repo):
+    relm = "src/alignment/pairwise/mod.rs"
+    relb = "src/alignment/pairwise/banded.rs"
+    relq = "src/alignment/poa.rs"
+    m_, b_, q_ = Src(repo, relm), Src(repo, relb), Src(repo, relq)
+    min_pw = m_.int_const("MIN_SCORE", "i32")
+    min_poa = q_.int_const("MIN_SCORE", "i32")
+    max_cells = b_.int_const("MAX_CELLS", "usize")
+    dflt = b_.int_const("DEFAULT_MATCH_SCORE", "i32")
+    # banded.rs must still take its MIN_SCORE from pairwise (no third definition)
+    if re.search(r"\b(?:const|static)\s+MIN_SCORE\b", b_.code):
+        fail("%s: defines its own MIN_SCORE (was: imported from pairwise); add it to Gen/Limits" % relb)
+    if not re.search(r"\buse\s+crate::alignment::pairwise::(?:\*|\{[^}]*\*[^}]*\}|\{[^}]*\bMIN_SCORE\b[^}]*\}|MIN_SCORE)\s*;", b_.code) \
+            and not re.search(r"\buse\s+super::(?:\*|\{[^}]*\*[^}]*\}|\{[^}]*\bMIN_SCORE\b[^}]*\}|MIN_SCORE)\s*;", b_.code):
+        fail("%s: no longer imports MIN_SCORE from pairwise (`use crate::alignment::pairwise::*`)" % relb)
+    # the guard in which MAX_CELLS is used
+    g = re.findall(r"\bif\s+self\s*\.\s*band\s*\.\s*num_cells\s*\(\s*\)\s*>\s*MAX_CELLS\s*\{", b_.code)
+    if len(g) != 1:
+        fail("%s: expected exactly one guard `if self.band.num_cells() > MAX_CELLS {`, found %d" % (relb, len(g)))
+    b_.snippets["MAX_CELLS guard"] = g[0]
+    if min_pw != min_poa:
+        note("MIN_SCORE differs: pairwise %d, poa %d: min_score_pairwise_eq_poa will fail" % (min_pw, min_poa))
+    for nm, v in (("pairwise", min_pw), ("poa", min_poa)):
+        if 2 * v < -2 ** 31:
+            note("2 * MIN_SCORE (%s) = %d < -2^31: two_min_scores_no_i32_overflow will fail" % (nm, 2 * v))
+    text = (
+        "/-! GENERATED by tools/gen_tables.py (properties C01, C02, C16) — do not edit.\n"
+        "Extracted from the source text of `" + relm + "`, `" + relb + "`, `" + relq + "`\n"
+        "on every `./check C01|C02|C16`.  Theorems over these constants: `RbV/Thm/GenLimits.lean`. -/\n"
+        "namespace RbV.Gen.Limits\n\n"
+        "/-- `pub const MIN_SCORE: i32` of `" + relm + "` (also used by banded.rs through `use …pairwise::*`) -/\n"
+        "def minScorePairwise : Int := %s\n\n" % lean_int(min_pw) +
+        "/-- `pub const MIN_SCORE: i32` of `" + relq + "` -/\n"
+        "def minScorePoa : Int := %s\n\n" % lean_int(min_poa) +
+        "/-- `const MAX_CELLS: usize` of `" + relb + "`, used in the guard `if self.band.num_cells() > MAX_CELLS` -/\n"
+        "def maxCells : Nat := %d\n\n" % max_cells +
+        "/-- `const DEFAULT_MATCH_SCORE: i32` of `" + relb + "` -/\n"
+        "def defaultMatchScore : Int := %s\n\n" % lean_int(dflt) +
+        "/-- width in bits of the score type (`i32`; the extraction fails when the declared type changes) -/\n"
+        "def scoreBits : Nat := 32\n\n"
+        "end RbV.Gen.Limits\n")
+    snippets = {}
+    for s, pre in ((m_, "pairwise::"), (b_, "banded::"), (q_, "poa::")):
+        for k, v in s.snippets.items():
+            snippets[pre + k] = v
+    emit("Limits", "C01,C02,C16", text, [(relm, m_.raw), (relb, b_.raw), (relq, q_.raw)], snippets)
+
+
+TB_NAMES = ["TB_START", "TB_INS", "TB_DEL", "TB_SUBST", "TB_MATCH", "TB_XCLIP_PREFIX", "TB_XCLIP_SUFFIX",
+            "TB_YCLIP_PREFIX", "TB_YCLIP_SUFFIX"]
+
+
+def lean_ident(cname):
+    parts = cname.lower().split("_")
+    return parts[0] + "".join(p.capitalize() for p in parts[1:])
+
+
+def gen_tbcodes(repo):
+    rel = "src/alignment/pairwise/mod.rs"
+    s = Src(repo, rel)
+    pos = [(n, s.int_const(n, "u8")) for n in ("I_POS", "D_POS", "S_POS")]
+    codes = [(n, s.int_const(n, "u16")) for n in TB_NAMES]
+    tb_max = s.int_const("TB_MAX", "u16")
+    # any further TB_* constant would be a move the model does not know
+    all_tb = sorted(set(re.findall(r"\bconst\s+(TB_[A-Z0-9_]+)\s*:", s.code)))
+    extra = [n for n in all_tb if n not in TB_NAMES and n != "TB_MAX"]
+    if extra:
+        fail("%s: new traceback constants %s: the list of moves in tools/gen_tables.py (TB_NAMES) has to be extended"
+             % (rel, ", ".join(extra)))
+    # field mask and the cell type: `struct TracebackCell { v: u16 }`, `(0b1111) << pos`, `& (0b1111)`
+    cell = re.findall(r"\bpub\s+struct\s+TracebackCell\s*\{\s*v\s*:\s*(\w+)\s*,?\s*\}", s.code)
+    if len(cell) != 1 or cell[0] not in ("u8", "u16", "u32", "u64"):
+        fail("%s: `pub struct TracebackCell { v: <unsigned> }` not found (restructured)" % rel)
+    cell_bits = int(cell[0][1:])
+    body, line = s.fn_body(r"\bfn\s+set_bits\s*\(\s*&\s*mut\s+self\s*,\s*pos\s*:\s*u8\s*,\s*value\s*:\s*u16\s*\)\s*\{", "TracebackCell::set_bits")
+    m1 = s.unique_in(body, line, r"\blet\s+bits\s*:\s*u16\s*=\s*\(?\s*([0-9a-fA-Fxob_]+)\s*\)?\s*<<\s*pos\s*;", "set_bits mask", "`let bits: u16 = (<mask>) << pos;`")
+    s.unique_in(body, line, r"assert!\s*\(\s*value\s*<=\s*TB_MAX\s*,", "set_bits guard", "`assert!(value <= TB_MAX, …)`")
+    s.unique_in(body, line, r"self\s*\.\s*v\s*=\s*\(\s*self\s*\.\s*v\s*&\s*!\s*bits\s*\)\s*\|\s*\(\s*value\s*<<\s*pos\s*\)", "set_bits update",
+                "`self.v = (self.v & !bits) | (value << pos)`")
+    gbody, gline = s.fn_body(r"\bfn\s+get_bits\s*\(\s*self\s*,\s*pos\s*:\s*u8\s*\)\s*->\s*u16\s*\{", "TracebackCell::get_bits")
+    m2 = s.unique_in(gbody, gline, r"\(\s*self\s*\.\s*v\s*>>\s*pos\s*\)\s*&\s*\(?\s*([0-9a-fA-Fxob_]+)\s*\)?", "get_bits", "`(self.v >> pos) & (<mask>)`")
+    mask1, mask2 = parse_int(m1.group(1)), parse_int(m2.group(1))
+    if mask1 is None or mask2 is None:
+        fail("%s: the field mask of set_bits/get_bits is no longer an integer literal" % rel)
+    if mask1 != mask2:
+        fail("%s: set_bits clears mask %d but get_bits reads mask %d" % (rel, mask1, mask2))
+    # which position each accessor pair uses
+    for fld, p in (("i", "I_POS"), ("d", "D_POS"), ("s", "S_POS")):
+        for acc, rx in (("set_%s_bits" % fld, r"\bfn\s+set_%s_bits\s*\([^)]*\)\s*\{[^}]*self\s*\.\s*set_bits\s*\(\s*%s\s*,\s*value\s*\)" % (fld, p)),
+                        ("get_%s_bits" % fld, r"\bfn\s+get_%s_bits\s*\([^)]*\)\s*->\s*u16\s*\{[^}]*self\s*\.\s*get_bits\s*\(\s*%s\s*\)" % (fld, p))):
+            if len(re.findall(rx, s.code)) != 1:
+                fail("%s: `%s` no longer is the accessor of the field at %s" % (rel, acc, p))
+    for i, (a, va) in enumerate(codes):
+        if va > tb_max:
+            note("%s = %d > TB_MAX = %d: tb_codes_le_max will fail (the assert! in set_bits would fire)" % (a, va, tb_max))
+        for b, vb in codes[i + 1:]:
+            if va == vb:
+                note("%s = %s = %d: tb_codes_distinct will fail" % (a, b, va))
+    for i, (a, pa) in enumerate(pos):
+        if pa + 4 > cell_bits:
+            note("%s = %d: the field leaves the %d-bit cell: tb_fields_disjoint will fail" % (a, pa, cell_bits))
+        for b, pb in pos[i + 1:]:
+            if abs(pa - pb) < 4:
+                note("fields at %s = %d and %s = %d overlap: tb_fields_disjoint will fail" % (a, pa, b, pb))
+    out = ["/-! GENERATED by tools/gen_tables.py (properties C01, C02) — do not edit.",
+           "Extracted from the source text of `" + rel + "` on every `./check C01|C02`: the traceback-cell",
+           "constants (`I_POS`, `D_POS`, `S_POS`, `TB_*`), the 4-bit field mask used by `set_bits`/`get_bits` and the width of",
+           "`TracebackCell::v`.  Theorems over these constants: `RbV/Thm/GenTbCodes.lean`. -/",
+           "namespace RbV.Gen.TbCodes", ""]
+    for n, v in pos:
+        out.append("/-- `const %s: u8` -/" % n)
+        out.append("def %s : Nat := %d" % (lean_ident(n), v))
+    out.append("")
+    for n, v in codes:
+        out.append("/-- `const %s: u16` -/" % n)
+        out.append("def %s : Nat := %d" % (lean_ident(n), v))
+    out.append("")
+    out.append("/-- `const TB_MAX: u16` (bound asserted by `set_bits`) -/")
+    out.append("def tbMax : Nat := %d" % tb_max)
+    out.append("")
+    out.append("/-- the mask literal of `set_bits` (`(0b1111) << pos`) and `get_bits` (`& (0b1111)`) -/")
+    out.append("def fieldMask : Nat := %d" % mask1)
+    out.append("")
+    out.append("/-- width of `TracebackCell::v` (`%s`) -/" % cell[0])
+    out.append("def cellBits : Nat := %d" % cell_bits)
+    out.append("")
+    out.append("/-- the field positions in the order I, D, S -/")
+    out.append("def positions : List Nat := [%s]" % ", ".join(lean_ident(n) for n, _ in pos))
+    out.append("")
+    out.append("/-- all move codes, in source order -/")
+    out.append("def codes : List Nat := [%s]" % ", ".join(lean_ident(n) for n, _ in codes))
+    out.append("")
+    out.append("/-- names of `codes`, same order (for messages) -/")
+    out.append("def codeNames : List String := [%s]" % ", ".join('"%s"' % n for n, _ in codes))
+    out.append("")
+    out.append("end RbV.Gen.TbCodes")
+    emit("TbCodes", "C01,C02", "\n".join(out) + "\n", [(rel, s.raw)], s.snippets)
+
+
+# ------------------------------------------------------------------------------------------ C03/C04: Occ::get
+
+def gen_occ(repo):
+    rel = "src/data_structures/bwt.rs"
+    s = Src(repo, rel)
+    body, line = s.fn_body(r"pub\s+fn\s+get\s*\(\s*&\s*self\s*,\s*bwt\s*:\s*&\s*BWTSlice\s*,\s*r\s*:\s*usize\s*,\s*a\s*:\s*u8\s*\)\s*->\s*usize\s*\{",
+                           "Occ::get")
+    m = s.unique_in(body, line, r"\bif\s+self\s*\.\s*k\s*(>=|>|<=|<|==|!=)\s*([^{]+?)\s*\{", "k threshold", "`if self.k > <literal> {`")
+    if m.group(1) != ">":
+        fail("%s: Occ::get: the sampling-rate test is now `self.k %s …` (the mirror model `occGet` has `k > threshold`)"
+             % (rel, m.group(1)))
+    thr = parse_int(m.group(2))
+    if thr is None or thr < 0:
+        fail("%s: Occ::get: the threshold `%s` is no longer an integer literal" % (rel, m.group(2)))
+    # the backward branch condition the model transcribes
+    s.unique_in(body, line, r"\(\s*hi_idx\s*-\s*r\s*\)\s*<\s*\(\s*self\s*\.\s*k\s+as\s+usize\s*/\s*2\s*\)", "backward test",
+                "`(hi_idx - r) < (self.k as usize / 2)`")
+    text = (
+        "/-! GENERATED by tools/gen_tables.py (properties C03, C04) — do not edit.\n"
+        "Extracted from the source text of `" + rel + "` on every `./check C03|C04`: the literal of\n"
+        "`if self.k > <literal> {` in `Occ::get` (above it the closer of the two neighbouring checkpoints is used).\n"
+        "`RbV.OccM.occGet` / `occBranch` (`RbV/Model/Occ.lean`) use it; `occ_get_eq` holds for every threshold. -/\n"
+        "namespace RbV.Gen.Occ\n\n"
+        "def hiCheckpointThreshold : Nat := %d\n\n" % thr +
+        "end RbV.Gen.Occ\n")
+    emit("Occ", "C03,C04", text, [(rel, s.raw)], s.snippets)
+
+
+# ------------------------------------------------------------------------------------------ theorem modules built here
+
+def enclosing_decl(rel, line):
+    """name of the theorem/example/def around line `line` of lean/<rel> (for messages)"""
+    try:
+        lines = open(os.path.join(LEAN, rel), encoding="utf8").read().splitlines()
+    except OSError:
+        return "?"
+    for k in range(min(line, len(lines)) - 1, -1, -1):
+        m = re.match(r"\s*(?:private\s+|noncomputable\s+)*(theorem|lemma|def|example)\b\s*([\w.']*)", lines[k])
+        if m:
+            return (m.group(1) + " " + m.group(2)).strip()
+    return "?"
+
+
+def verify_modules(mods):
+    """`lake build` of theorem modules that no property's Thm file imports yet (runs under the caller's lake lock)"""
+    def run(repo):
+        p = subprocess.run(["lake", "build"] + mods, cwd=LEAN, stdout=subprocess.PIPE, stderr=subprocess.STDOUT,
+                           text=True, timeout=3600)
+        if p.returncode != 0:
+            names = []
+            for mm in re.finditer(r"error: (RbV/[\w/]+\.lean):(\d+):\d+:\s*(.*)", p.stdout):
+                d = "%s (%s:%s: %s)" % (enclosing_decl(mm.group(1), int(mm.group(2))), mm.group(1), mm.group(2),
+                                        mm.group(3)[:60])
+                if d not in names:
+                    names.append(d)
+            if not names:
+                names = [l for l in p.stdout.splitlines() if "error" in l][:6]
+            fail("theorems over the generated constants no longer check: " + " | ".join(names[:6]))
+        print("gen_tables: %s checked" % " ".join(mods))
+    return run
 
 
 EXTRACTORS = {
     "C20": [gen_complement],
+    "C17": [gen_dna2int],
+    "C15": [gen_scales],
+    "C01": [gen_limits, gen_tbcodes, verify_modules(["RbV.Thm.GenLimits", "RbV.Thm.GenTbCodes"])],
+    "C02": [gen_limits, gen_tbcodes, verify_modules(["RbV.Thm.GenLimits", "RbV.Thm.GenTbCodes"])],
+    "C16": [gen_limits, verify_modules(["RbV.Thm.GenLimits"])],
+    "C03": [gen_occ],
+    "C04": [gen_occ],
 }
 
 
 def main():
     ap = argparse.ArgumentParser()
     ap.add_argument("--repo", default=os.environ.get("VERIF_REPO", "/repo"))
-    ap.add_argument("--prop", required=True)
+    ap.add_argument("--prop", required=True, help="property id, or ALL")
+    ap.add_argument("--json", action="store_true", help="print provenance of the generated files as one JSON line")
     a = ap.parse_args()
     repo = a.repo  # kept verbatim: ./check compares the bio-src link target with the same string
     if not os.path.isdir(os.path.join(repo, "src")):
         fail("repo %s has no src/ directory" % repo)
-    for fn in EXTRACTORS.get(a.prop.upper(), []):
+    if a.prop.upper() == "ALL":
+        fns = []
+        for k in sorted(EXTRACTORS):
+            for fn in EXTRACTORS[k]:
+                if fn not in fns and fn.__name__ != "run":
+                    fns.append(fn)
+    else:
+        fns = EXTRACTORS.get(a.prop.upper(), [])
+    for fn in fns:
         fn(repo)
+    if a.json:
+        print("gen_tables-json: " + json.dumps(REPORT, sort_keys=True))
     sys.exit(0)
 
 
